@@ -1,61 +1,235 @@
-"""Per-property definition: theorems that must check (lean/AJ/Props/<id>.lean), correspondence suites, notes."""
+"""Per-property definition: which Lean module holds the property theorems (all `theorem`s of the listed namespaces are
+obligations and are audited), which correspondence suites tie the model to /repo, and the claim texts for MANIFEST.json."""
+import os, re
 import suites as S
+
+ROOT = os.path.dirname(os.path.dirname(os.path.abspath(__file__)))
 
 TRUSTED_BASE = [
     "Lean 4.33.0 kernel (lake build; leanchecker re-check in the thorough tier)",
     "statements of the theorems in lean/AJ/Props and of the specs in lean/AJ/Spec",
     "hand translation C++ -> lean/AJ/Model, validated by the correspondence suites of tools/suites.py (sampling unless marked exhaustive)",
     "translator tools/gen_tables.py + harness/dump_tables.cpp (tables and configuration constants regenerated from /repo on every run)",
-    "harness/aj_harness.cpp, g++ 12 with ASan/UBSan, the Python oracles of tools/gens.py and tools/mpack.py",
+    "harness/aj_harness.cpp, g++ 12 with ASan/UBSan, the Python oracles of tools/gens.py, tools/mpack.py, tools/dialect.py, tools/hist.py",
     "not modelled: C++ overload selection, byte layout of slots, libc/malloc, real stack and threads (observed through sanitizers only)",
 ]
 
-DEF = {}                                                  # default configuration
+DEF = {}
 CFG_ALL = {"ENABLE_COMMENTS": 1, "ENABLE_NAN": 1, "ENABLE_INFINITY": 1}
 CFG_NOUNI = {"DECODE_UNICODE": 0}
+G = S.GEOMETRIES
 
-PROPS = {}
 HOOK_COMMITS = []
 NOT_APPLICABLE = {}
 
-PROPS["C17"] = {
-    "level_text": "Theorems (for every code point / byte): Utf8::encodeCodepoint is UTF-8, decodeHex is right on every hex digit in both cases, "
-                  "surrogate recombination yields the code point, the serializer's escape table is inverted by the deserializer's, and bytes other than "
-                  "the eight special ones are emitted verbatim. The tables are regenerated from /repo on every run. The composition through the string "
-                  "parser is tied by an exhaustive differential run (all code units, pairs, bytes and byte pairs) of the real library against the model.",
-    "level_note": "Lean kernel; axioms propext/Quot.sound/Classical.choice only; model = hand translation validated exhaustively on this domain; "
-                  "position independence inside parseQuotedString is covered by the correspondence, not by a theorem yet",
-    "theorems": ["C17.encodeCodepoint_eq_utf8", "C17.decodeHex_hex", "C17.surrogate_pair", "C17.unescape_escape", "C17.escape_minimal"],
-    "suites": lambda tier: [S.UniSuite(cfg=DEF)],
-    "exhaustive": True,
-    "rule": "exhaustive enumeration: all 65536 \\uXXXX units x 3 hex-case spellings, surrogate pairs (all 2^20 in the thorough tier, "
-            "26 per high unit + 3 per low unit in the quick tier), all 256 bytes and all 65536 byte pairs through serialize+deserialize; "
-            "non-trivial = non-ASCII unit / pair / content containing an escaped or >=0x80 byte; distinct by code unit(s) or content",
-    "partial": ["the theorems cover encodeCodepoint, decodeHex, surrogate arithmetic and the escape tables; the composition through "
-                "parseQuotedString (position independence) rests on the exhaustive correspondence run"],
-}
 
-PROPS["C02"] = {
-    "level_text": "Theorems for every text and every capacity: the bounded writer returns min(cap,length), stores exactly that prefix, writes a NUL iff "
-                  "length < cap (text formats), defines exactly cap bytes and leaves the rest untouched. The text itself (escaping, separators, numbers, "
-                  "pretty layout) is produced by the model JSer/JS, which is compared byte for byte with serializeJson/serializeJsonPretty on generated "
-                  "documents, and the implementation's text is parsed by an independent RFC 8259 parser and compared with the document; all destination "
-                  "kinds, measureJson and guard bytes are checked inside the harness.",
-    "level_note": "Lean kernel for the buffer contract; RFC 8259 conformance of the produced text is established by the independent parser on sampled "
-                  "documents (not yet by a theorem); Arduino String/Print destinations only in the AJ_ARDUINO build of the thorough tier",
-    "theorems": ["C02.buffer_count", "C02.buffer_prefix", "C02.buffer_nul", "C02.buffer_no_nul_binary", "C02.buffer_within", "C02.buffer_untouched", "C02.buffer_content"],
-    "suites": lambda tier: [S.JsonSerSuite(cfg=DEF), S.SerBufSweep(cfg=DEF, fmt="json")] + ([S.JsonSerSuite(cfg=CFG_ALL, n=20000), S.JsonSerSuite(cfg={"arduino": 1}, n=20000)] if tier == "thorough" else [S.JsonSerSuite(cfg=CFG_ALL, n=600)]),
-    "partial": ["C02_denotes (the text is in the RFC 8259 grammar and denotes the document) is not proved yet; it rests on the correspondence and the independent parser"],
-}
+def strip_comments(text):
+    out = []
+    i = 0
+    depth = 0
+    n = len(text)
+    while i < n:
+        if text.startswith("/-", i):
+            depth += 1
+            i += 2
+        elif depth and text.startswith("-/", i):
+            depth -= 1
+            i += 2
+        elif depth:
+            i += 1
+        elif text.startswith("--", i):
+            while i < n and text[i] != "\n":
+                i += 1
+        else:
+            out.append(text[i])
+            i += 1
+    return "".join(out)
 
-PROPS["C03"] = {
-    "level_text": "Theorem for every configuration, limit and byte string: the JSON deserializer never takes more bytes from its reader than the input has "
-                  "(invariant consumed + unread = length carried through all routines, incl. the mutually recursive parser). The model is compared with the real "
-                  "library on bounded-exhaustive token sequences, mutated and random inputs through nine reader kinds, inputs in exactly-sized heap blocks under "
-                  "ASan+UBSan; the six codes and source independence are checked on the implementation directly.",
-    "level_note": "memory safety of the binary is observed by sanitizers, not proved; the MessagePack bound and fuel sufficiency (termination) theorems are in progress",
-    "theorems": ["C03.json_reads_within_input"],
-    "suites": lambda tier: [S.JsonAnySuite(cfg=DEF), S.MpDeSuite(cfg=DEF, n=1200 if tier == "quick" else 100000), S.FilterSuite(cfg=DEF, n=2500 if tier == "quick" else 100000)] +
-                           ([S.JsonAnySuite(cfg=CFG_ALL, n=200000), S.JsonAnySuite(cfg=CFG_NOUNI, n=100000)] if tier == "thorough" else [S.JsonAnySuite(cfg=CFG_ALL, n=8000)]),
-    "partial": ["termination/no-fault (fuel sufficiency) and the MessagePack read bound are not proved yet"],
-}
+
+def theorems_of(module, namespaces=None):
+    """all theorem names declared in lean/<module>.lean, qualified by the enclosing namespaces; optionally filtered by top namespace"""
+    path = os.path.join(ROOT, "lean", *module.split(".")) + ".lean"
+    if not os.path.exists(path):
+        return []
+    txt = strip_comments(open(path).read())
+    stack = []
+    out = []
+    for line in txt.splitlines():
+        m = re.match(r"\s*namespace\s+([\w.]+)", line)
+        if m:
+            stack.append(m.group(1))
+            continue
+        m = re.match(r"\s*end\s+([\w.]+)\s*$", line)
+        if m and stack and stack[-1] == m.group(1):
+            stack.pop()
+            continue
+        m = re.match(r"\s*(?:@\[[^\]]*\]\s*)?(?:protected\s+)?theorem\s+([\w.']+)", line)
+        if m:
+            name = ".".join(stack + [m.group(1)])
+            if namespaces is None or name.split(".")[0] in namespaces:
+                out.append(name)
+    return out
+
+
+TECH = ("Lean 4 theorems about an executable model of the code; the model is tied to /repo by tables regenerated from the source and by a "
+        "differential correspondence check (sanitizer harness vs. compiled model driver) plus independent oracles on the implementation")
+
+PROPS = {}
+
+
+def P(pid, module=None, namespaces=None, extra=(), **kw):
+    module = module or "AJ.Props." + pid
+    d = dict(kw)
+    d["module"] = module
+    d["theorems"] = theorems_of(module, namespaces)
+    for m2, ns2 in extra:            # theorems of this property that live in another (imported) file
+        d["theorems"] += theorems_of(m2, ns2)
+    d.setdefault("technique", TECH)
+    PROPS[pid] = d
+
+
+P("C01", namespaces=["C01"], level_text="Theorem C01.valid_json: for every RFC 8259 text within the limits (relational grammar lean/AJ/Spec/Json.lean: any whitespace layout, escape spelling, number spelling, key set "
+  "incl. empty/NUL/prefix/repeated keys; nesting <= L, strings <= maxStrLen, literals <= 63 bytes) the deserializer model returns Ok and exactly the denoted document (last occurrence "
+  "wins, integers exact, other numbers = parseNumber), for every flag configuration with DECODE_UNICODE=1; proved by mutual induction on derivations with an explicit fuel bound. The model is "
+  "compared with deserializeJson on grammar-generated valid texts (repeated keys, NUL keys, prefix keys, all escape spellings, prefilled destinations, nine "
+  "reader kinds) and the implementation's document is checked against the value the generator knows the text denotes.",
+  level_note="Lean kernel; the limits are part of the grammar because a repeated key hides the value it overwrites (kernel-checked counterexample to the naive statement); "
+  "floating-point accuracy is C12's concern; 'destination entirely replaced' is checked by the correspondence (prefilled documents)",
+  suites=lambda tier: [S.JsonValidSuite(cfg=DEF), S.JsonValidSuite(cfg=CFG_ALL, n=1500 if tier == "quick" else 100000)],
+  partial=[])
+
+P("C02", level_text="Theorems for every text and every capacity: the bounded writer returns min(cap,length), stores exactly that prefix, writes a NUL iff "
+  "length < cap (text formats), defines exactly cap bytes and leaves the rest untouched. The text itself (escaping, separators, numbers, pretty layout) is produced by "
+  "the model JSer/JS, compared byte for byte with serializeJson/serializeJsonPretty on generated documents; the implementation's text is parsed by an independent "
+  "RFC 8259 parser and compared with the document; all destination kinds, measureJson and guard bytes are checked inside the harness.",
+  level_note="Lean kernel for the buffer contract; RFC 8259 conformance of the text rests on the independent parser over sampled documents; known finding: raw control characters (known_findings.json)",
+  suites=lambda tier: [S.JsonSerSuite(cfg=DEF), S.SerBufSweep(cfg=DEF, fmt="json")] +
+  ([S.JsonSerSuite(cfg=CFG_ALL, n=20000), S.JsonSerSuite(cfg={"arduino": 1}, n=20000)] if tier == "thorough" else [S.JsonSerSuite(cfg=CFG_ALL, n=600)]),
+  partial=["C02_denotes (the text is in the RFC 8259 grammar and denotes the document) rests on the correspondence and the independent parser"])
+
+P("C03", level_text="Theorems for every configuration, limit, filter and byte string, JSON (filtered and unfiltered) and MessagePack: the deserializer never takes more bytes "
+  "than the input has; it terminates (the model's fuel 2*len+4 is never exhausted) and never reaches a fault state (powers-of-ten table index in range for every literal); the code is "
+  "one of the six documented ones. The model is compared with the real library on bounded-exhaustive token sequences, mutated and random inputs through nine reader kinds, inputs in "
+  "exactly-sized heap blocks under ASan+UBSan; source independence is checked on the implementation directly.",
+  level_note="memory safety of the binary is observed by sanitizers, not proved; the 'never past the terminator' clause of zero-terminated readers rests on ASan",
+  suites=lambda tier: [S.JsonAnySuite(cfg=DEF), S.MpDeSuite(cfg=DEF, n=1200 if tier == "quick" else 100000), S.FilterSuite(cfg=DEF, n=2500 if tier == "quick" else 100000)] +
+  ([S.JsonAnySuite(cfg=CFG_ALL, n=200000), S.JsonAnySuite(cfg=CFG_NOUNI, n=100000)] if tier == "thorough" else [S.JsonAnySuite(cfg=CFG_ALL, n=8000)]))
+
+P("C07", level_text="Theorems: MessagePack round trip for every raw-free document within limits (accepted, exact consumption, result = norm d with numerically equal numbers, second "
+  "serialization byte-identical); through JSON, every byte string and key and every 64-bit integer is read back exactly. Documents from three generators are pushed through the real "
+  "library both ways and across formats; the equalities are evaluated on the implementation's outputs and compared with the model.",
+  level_note="whole-document JSON round trip and the float tolerance through JSON are checked on the implementation (oracle); the whole-document JSON theorem is in progress",
+  suites=lambda tier: [S.RoundTripSuite(cfg=DEF)],
+  partial=["C07_json for whole documents; floats through JSON are covered by the oracle with the C12 tolerances"])
+
+P("C08", level_text="Theorem: for every raw-free document within the 64-bit/32-bit limits, an independent decoder written from the MessagePack specification decodes "
+  "serializeMsgPack's output to exactly one object denoting the document (integers by value and sign, strings byte-exact, floats bit-exact or the integer of the same value, narrowing of "
+  "doubles only when lossless), with the shortest headers on both sides of every boundary. bin/ext values built through the API are modelled and compared; destinations, counts and "
+  "bounded buffers are checked in the harness; an independent Python decoder judges the implementation's bytes.",
+  level_note="raw values are excluded from the theorem (they are copied verbatim); lengths >= 2^32 are outside the format",
+  suites=lambda tier: [S.MpSerSuite(cfg=DEF), S.SerBufSweep(cfg=DEF, fmt="mp", n=40 if tier == "quick" else 1500)])
+
+P("C09", level_text="Theorems: every serialized document is accepted and decoded to the value it encodes with exact consumption (any trailing bytes), 0xC1 gives InvalidInput, a non-string "
+  "key gives InvalidInput, the empty input gives EmptyInput, proper prefixes of scalars give IncompleteInput. The model agrees with deserializeMsgPack on values encoded by an independent "
+  "encoder with arbitrary legal widths, on all their proper prefixes and on corruptions; the implementation's document is checked against the encoded value.",
+  level_note="non-minimal encodings and prefixes of containers are covered by the correspondence and the oracle, not by the theorem; USE_DOUBLE=0 only in the thorough tier",
+  suites=lambda tier: [S.MpDeSuite(cfg=DEF)] + ([S.MpDeSuite(cfg={"USE_DOUBLE": 0}, n=30000)] if tier == "thorough" else []),
+  partial=["prefix_incomplete for strings/containers"])
+
+P("C10", level_text="Theorems for every byte: the hex-digit class of \\u, the set of escape letters, the exact characterisation of the literals that become integers; TooDeep is returned "
+  "exactly at the offending bracket (C15). Whole-parser acceptance/classification is tied by a bounded-exhaustive run (all token sequences up to length 3/4 over a 33-token alphabet, "
+  "plus mutated and random texts, 3 flag configurations) against the model and against an independent recognizer of the documented dialect (tools/dialect.py).",
+  level_note="accepts-iff-dialect is not yet a theorem: it rests on the bounded-exhaustive correspondence and the independent recognizer",
+  suites=lambda tier: [S.JsonAnySuite(cfg=DEF), S.JsonAnySuite(cfg=CFG_ALL, n=6000 if tier == "quick" else 300000), S.JsonAnySuite(cfg=CFG_NOUNI, n=3000 if tier == "quick" else 100000)],
+  partial=["C10_accepts_iff"])
+
+P("C11", level_text="Theorems: the filter `true` (and AllowAll) is the identity on every input, malformed included, for JSON and MessagePack; a value is never produced into an absent "
+  "destination; top-level projection (kind not admitted => null, scalars kept iff allowValue). Pairs (input, filter) are run through the real library, compared with the model and with the "
+  "projection of the unfiltered result computed independently; memory requested by both runs is compared.",
+  level_note="full recursive projection is tied by the correspondence + Python projection oracle; the memory clause is checked on the implementation only",
+  suites=lambda tier: [S.FilterSuite(cfg=DEF)],
+  partial=["recursive projection theorem"])
+
+P("C12", level_text="Theorems: every integer literal in [-2^63, 2^64) with any number of leading zeros parses to exactly that integer and nothing else does; integers print digit-exact; "
+  "print/parse round trip over the whole 64-bit range; no literal of any length reaches an out-of-range table index. Float parse/print accuracy is checked on the implementation against "
+  "exact rational arithmetic (literals up to thousands of digits through as<T>() on strings, random and boundary floats/doubles) and compared bit for bit with the softfloat model; the "
+  "powers-of-ten tables are regenerated from the source.",
+  level_note="the 1e-6/1e-13/1e-9 error bounds are established by the exact-rational oracle on sampled values, not yet by a theorem",
+  suites=lambda tier: [S.NumSuite(cfg=DEF)],
+  partial=["C12_parse_in_range / C12_print_* error bounds"])
+
+P("C13", level_text="Theorems for every stored number and each of the eight integral widths: as<T>() is the exact value when it lies in T's range and 0 otherwise, never undefined "
+  "(the model's UB state is unreachable), the six highest_for constants (regenerated from the source) are the largest float/double not above T::max, is<T>() iff stored as an integer "
+  "that fits and then as<U>() agrees for every wider U; float<->double and integer->float conversions are exact / nearest. The model is compared with the library on every storage kind "
+  "x target over boundary and random values and numeric strings, under UBSan.",
+  level_note="copyArray bounds are exercised by the harness only",
+  suites=lambda tier: [S.ConvSuite(cfg=DEF)])
+
+P("C15", level_text="Theorems for JSON (filtered and unfiltered) and MessagePack, any bytes, any limit: Ok implies nesting <= L; L+1 opening brackets/headers give TooDeep after exactly "
+  "L+1 bytes, also inside discarded parts; raising the limit changes nothing unless the result was TooDeep (never otherwise). Stack use is compared between inputs of depth L+1 and 2000.",
+  level_note="stack bytes are observed on the binary; 'as soon as' for nested objects is covered by the correspondence",
+  suites=lambda tier: [S.DepthSuite(cfg=DEF)])
+
+P("C16", extra=[("AJ.Props.C01", ["C16"])], level_text="Theorems: deserializeMsgPack consumes exactly the bytes of one object and its result is independent of what follows; back-to-back objects are returned one after the "
+  "other. Streams of documents with arbitrary separators are read through a counting reader and std::istream with byte-wise and block-wise delivery; positions and documents are "
+  "compared with the model and with the generator's expectations.",
+  level_note="exact consumption for every JSON value kind is part of the C01 development; here it rests on the correspondence",
+  suites=lambda tier: [S.StreamSuite(cfg=DEF)],
+  partial=["JSON exact consumption theorem"])
+
+P("C17", level_text="Theorems (for every code point / byte / byte string): Utf8::encodeCodepoint is UTF-8, decodeHex is right on every hex digit in both cases, surrogate recombination, "
+  "\\uXXXX and surrogate pairs decode to UTF-8 at any position of a string (and key), whatever serializeJson writes for a byte string deserializeJson reads back identically, "
+  "and bytes other than the eight special ones are emitted verbatim. Tables are regenerated from /repo. Exhaustive differential run over all code units, pairs, bytes and byte pairs.",
+  level_note="Lean kernel; model validated exhaustively on this domain",
+  suites=lambda tier: [S.UniSuite(cfg=DEF)], exhaustive=True,
+  rule="exhaustive enumeration: all 65536 \\uXXXX units x 3 hex-case spellings, surrogate pairs (all 2^20 in the thorough tier), all 256 bytes and all 65536 byte pairs through "
+       "serialize+deserialize; non-trivial = non-ASCII unit / pair / content containing an escaped or >=0x80 byte; distinct by code unit(s) or content")
+
+P("C18", level_text="Theorems for all values: != is the negation of ==, <= is < or ==, at most one of < == > ; compare(b,a) is the reverse of compare(a,b) for all values without "
+  "repeated keys (hence == symmetric, < iff >), with the kernel-checked counterexample for repeated keys; integers compare exactly over the whole int64/uint64 range in all sign "
+  "combinations, otherwise as doubles, NaN never equal; strings/raw equal iff bytes identical; arrays element-wise; objects member-wise regardless of order; null only null. "
+  "All pairs over a pool of ~150 values x both orders and variant-vs-scalar forms are executed on the library; laws and values are judged on its answers.",
+  level_note="known finding: == is asymmetric for objects with repeated keys (reachable through MessagePack)",
+  suites=lambda tier: [S.CmpSuite(cfg=DEF)])
+
+P("C04", level_text="The slot-level model (pools, free list, chains, extension slots, reference-counted strings) is compared after every operation with the real "
+  "library on generated non-aliasing histories: every observation AND the allocator log of every operation, on several pool geometries; the library's observations are also checked "
+  "against an independent plain ordered-tree machine.",
+  level_note="refinement theorem for the document operations is in progress; aliasing assignments are excluded (see known findings)",
+  suites=lambda tier: [S.HistSuite(cfg=G["default"]), S.HistSuite(cfg=G["tiny1"], nh=40 if tier == "quick" else 2000), S.HistSuite(cfg=G["id1"], nh=30 if tier == "quick" else 2000)] +
+  ([S.HistSuite(cfg=G[g], nh=1500) for g in ("tiny2", "id1c10", "id1i3", "len1", "len4")] if tier == "thorough" else []),
+  partial=["C04_refines"])
+
+P("C05", level_text="Theorems at the slot-pool level for every state reachable under every failure oracle (one-shot positions and fail-from-k): a failed allocation changes no "
+  "live slot and keeps the pool invariant, clear() returns every block, and the allocator works again afterwards. At document level, API histories generated online against the model "
+  "(so that only usable references are touched) are run under single, fail-from-k and multi-failure schedules on an instrumented allocator: every observation and allocator log is "
+  "compared with the slot-level model, and the implementation is checked for crashes (ASan/UBSan), leaks at clear(), misuse of the allocator, unreported failures and collateral changes.",
+  level_note="document-level statements (no member without key or value, values outside the path unchanged) rest on the fault-schedule correspondence and its oracles, not yet on a theorem; "
+  "documents keep their own allocator in these histories (no copy-assignment/swap)",
+  suites=lambda tier: [S.FaultSuite(cfg=G["default"]), S.FaultSuite(cfg=G["tiny1"], nh=60 if tier == "quick" else 3000)] +
+  ([S.FaultSuite(cfg=G[g], nh=2000) for g in ("id1", "tiny2", "id1c10")] if tier == "thorough" else []),
+  partial=["document-level C05_wf / C05_frame"])
+
+P("C06", module="AJ.Props.C19", namespaces=["C06"], level_text="Theorems at the slot-pool level: a released slot is reused before any allocator call, the allocator is called only "
+  "when the free list is empty and the last pool is full or absent, clear() releases exactly one block per pool plus the heap table and nothing else. On the instrumented allocator "
+  "(ledger of live blocks, call log per document) histories and deserializations are compared call by call with the model; read-only operations must not call the allocator; "
+  "the ledger must be empty after clear(); double release or release through another allocator aborts the harness.",
+  level_note="string-node reference counts are modelled (de-duplication, release at zero) and compared through the allocator log; the deserialization memory bound is checked on sampled inputs only",
+  suites=lambda tier: [S.HistSuite(cfg=G["default"]), S.HistSuite(cfg=G["tiny1"], nh=40 if tier == "quick" else 2000), S.FaultSuite(cfg=G["default"], nh=60 if tier == "quick" else 2000),
+                       S.MpDeSuite(cfg=DEF, n=600 if tier == "quick" else 50000)],
+  partial=["C06_dedup and C06_deser_bound as theorems"])
+
+P("C19", namespaces=["C19"], level_text="Theorems for every geometry with poolCap >= 1 and initPools >= 1, every operation sequence and failure oracle: slot identifiers never wrap, "
+  "never equal NULL_SLOT, never collide with a live slot; at most 2^(8*idBytes)-1 slots; at the limit allocation fails without touching the state; after a release or clear() allocation "
+  "works again. (The proof attempt exposed two defects of the pinned tree, both repaired: table growth past maxPools and a last pool that is too large.) The same histories are replayed "
+  "under a matrix of geometries and compared with the model, including histories that cross the slot limit with 1-byte ids.",
+  level_note="string-length limits (STRING_LENGTH_SIZE) are covered by the correspondence on the len1/len4 builds, not by a theorem",
+  suites=lambda tier: [S.HistSuite(cfg=G["id1c10"], nh=30 if tier == "quick" else 1500), S.HistSuite(cfg=G["id1i3"], nh=30 if tier == "quick" else 1500), S.HistSuite(cfg=G["len1"], nh=25 if tier == "quick" else 1500),
+                       S.LimitSuite(cfg=G["id1c10"]), S.LimitSuite(cfg=G["tiny1"]), S.LimitSuite(cfg=G["id1i3"])] +
+  ([S.HistSuite(cfg=G[g], nh=1500) for g in ("tiny2", "len4", "id1")] if tier == "thorough" else []))
+
+for pid in list(PROPS):
+    if not PROPS[pid]["theorems"]:
+        # nothing proved yet for this property: it is not claimed
+        NOT_APPLICABLE[pid] = "not claimed yet: the correspondence suites exist, the property theorems are still being proved"
+        del PROPS[pid]
